@@ -272,7 +272,11 @@ func (b *hdBackend) handler(idx int) http.HandlerFunc {
 		body, _ := io.ReadAll(r.Body)
 		rnd := r.Header.Get(HeaderBackendSignalingRandom)
 		checksum := r.Header.Get(HeaderBackendSignalingChecksum)
-		mac := hmac.New(sha256.New, []byte(b.secrets[idx]))
+		secret := "" // idx < 0: an application at an unconfigured URL; it answers whatever it is asked
+		if idx >= 0 {
+			secret = b.secrets[idx]
+		}
+		mac := hmac.New(sha256.New, []byte(secret))
 		mac.Write([]byte(rnd))
 		mac.Write(body)
 		macOk := hex.EncodeToString(mac.Sum(nil)) == checksum
@@ -283,6 +287,9 @@ func (b *hdBackend) handler(idx int) http.HandlerFunc {
 			return
 		}
 		rec := hdBackendReq{Backend: idx, Type: request.Type, MacOk: macOk, RndLen: len(rnd)}
+		if idx < 0 {
+			rec.Backend = 99 // a request that reached an unconfigured application
+		}
 		var response interface{}
 		switch request.Type {
 		case "auth":
@@ -296,7 +303,7 @@ func (b *hdBackend) handler(idx int) http.HandlerFunc {
 			rec.User = params.U
 			if gate := b.gate; gate != nil {
 				b.mu.Lock()
-				b.reqs = append(b.reqs, hdBackendReq{Backend: idx, Type: "auth-held", User: params.U, MacOk: macOk, RndLen: len(rnd)})
+				b.reqs = append(b.reqs, hdBackendReq{Backend: rec.Backend, Type: "auth-held", User: params.U, MacOk: macOk, RndLen: len(rnd)})
 				b.mu.Unlock()
 				<-gate
 			}
@@ -710,9 +717,16 @@ func newHdSystem(t *testing.T, backends []hdBackendCfg) *hdSystem {
 	br := mux.NewRouter()
 	for i := range backends {
 		s.backend.secrets = append(s.backend.secrets, hdBackendSecret(i))
+		s.backend.keys[i] = hdBackendKey(i).pubText
 		p := fmt.Sprintf("/b%d", i)
 		br.HandleFunc(p+"/ocs/v2.php/apps/spreed/api/v1/signaling/backend", s.backend.handler(i))
 		br.HandleFunc(p+"/ocs/v2.php/cloud/capabilities", s.backend.capabilities(i))
+	}
+	// live applications at URLs that are NOT configured: a sibling whose path starts with the text of a
+	// configured one, and an unrelated one. They would accept any auth request that reached them.
+	for _, p := range []string{"/b0x", "/unconfigured"} {
+		br.HandleFunc(p+"/ocs/v2.php/apps/spreed/api/v1/signaling/backend", s.backend.handler(-1))
+		br.HandleFunc(p+"/ocs/v2.php/cloud/capabilities", s.backend.capabilities(-1))
 	}
 	s.backend.server = httptest.NewServer(br)
 
@@ -955,9 +969,53 @@ func (s *hdSystem) sendSync(c *hdClient, data []byte) {
 
 func hdIsSyncReply(data []byte) bool { return bytes.Contains(data, []byte(`"id":"hdsync`)) }
 
+// foreignRoomSession reports whether id is currently a key of the (server-wide) room-session map
+// that belongs to a session of another backend than b.
+func (s *hdSystem) foreignRoomSession(id string, b int) bool {
+	rs, ok := s.hub.roomSessions.(*BuiltinRoomSessions)
+	if !ok || id == "" {
+		return false
+	}
+	rs.mu.RLock()
+	sid, found := rs.roomSessionToSessionid[id]
+	rs.mu.RUnlock()
+	if !found {
+		return false
+	}
+	sess := s.hub.GetSessionByPublicId(sid)
+	if sess == nil || sess.Backend() == nil {
+		return false
+	}
+	return sess.Backend().Id() != fmt.Sprintf("backend%d", b)
+}
+
+// backendHasRoom: would Backend.AddSession accept one more client session right now?
+func (s *hdSystem) backendHasRoom(i int) bool {
+	for _, b := range s.hub.backend.GetBackends() {
+		if s.backendIndex(b) == i {
+			return b.Limit() == 0 || b.Len() < b.Limit()
+		}
+	}
+	return false
+}
+
+// backendCounts: Backend.Len() per configured backend
+func (s *hdSystem) backendCounts() []int {
+	counts := make([]int, s.nb)
+	for _, b := range s.hub.backend.GetBackends() {
+		if i := s.backendIndex(b); i >= 0 && i < s.nb {
+			counts[i] = b.Len()
+		}
+	}
+	return counts
+}
+
 func (s *hdSystem) backendUrl(i int) string {
 	if i < 0 || i >= s.nb {
-		return fmt.Sprintf("%s/unconfigured%d", s.backend.server.URL, i)
+		if (i-s.nb)%2 == 0 {
+			return fmt.Sprintf("%s/b0x", s.backend.server.URL)
+		}
+		return fmt.Sprintf("%s/unconfigured", s.backend.server.URL)
 	}
 	return fmt.Sprintf("%s/b%d", s.backend.server.URL, i)
 }
@@ -1026,6 +1084,7 @@ type hdDigest struct {
 	Subjects  map[string]int
 	McuOpen   []string
 	McuPending int
+	Counts    []int // Backend.Len() per configured backend
 }
 
 func (s *hdSystem) backendIndex(b *Backend) int {
@@ -1161,6 +1220,7 @@ func (s *hdSystem) digest() *hdDigest {
 		sort.Slice(l, func(i, j int) bool { return l[i] < l[j] })
 	}
 	d.Subjects = s.events.registrations()
+	d.Counts = s.backendCounts()
 	for _, o := range s.mcu.open() {
 		d.McuOpen = append(d.McuOpen, fmt.Sprintf("%s %d %s %s", o.Kind, o.Tok, o.Owner, o.Stream))
 	}
